@@ -1114,3 +1114,243 @@ theorem update_then_snapshot {M : Mach} {chk : Nat → Nat → Bool} {ok : M.σ 
 
 end Mach
 end Woodpile.Abt
+
+/-! ### The SC machine satisfies the bookkeeping laws -/
+namespace Woodpile.Abt.SC
+
+theorem run_append (chk : Nat → Nat → Bool) (l1 l2 : List Label) : ∀ (s : State),
+    run chk s (l1 ++ l2) = (match run chk s l1 with | some s1 => run chk s1 l2 | none => none) := by
+  induction l1 with
+  | nil => intro s; simp [run]
+  | cons l ls ih =>
+    intro s
+    simp only [List.cons_append, run]
+    cases step chk s l with
+    | none => rfl
+    | some s1 => exact ih s1
+
+theorem reachable_run {chk : Nat → Nat → Bool} {v0 : Nat} {s s' : State} (h : Reachable chk v0 s)
+    (ls : List Label) (hr : run chk s ls = some s') : Reachable chk v0 s' := by
+  obtain ⟨l0, h0⟩ := h
+  exact ⟨l0 ++ ls, by rw [run_append, h0]; exact hr⟩
+
+/-- Everything a step leaves alone or only grows (SC machine). -/
+structure FrameSpec (chk : Nat → Nat → Bool) (s s' : State) (l : Label) : Prop where
+  others : ∀ t', t' ≠ actor l → s'.thr t' = s.thr t' ∧ s'.start t' = s.start t'
+  seqmono : s.mem .seq ≤ s'.mem .seq
+  sync : ∀ t u, l = .sync t u → s' = s
+  start : ∀ t op, l = .start t op → s'.thr t = (s.thr t).start op ∧ s'.start t = s.mem .seq ∧ s'.mem = s.mem ∧
+      (s.thr t).pc.terminal = true
+  run : ∀ t ts, l = .run t ts → Local.Succ chk (s.thr t) (s'.thr t) ∧ s'.start t = s.start t
+
+theorem frame_run_aux (chk : Nat → Nat → Bool) (s : State) (t ts : Nat) (th' : Local) (lg' : Nat → List (Nat × Nat))
+    (mem' : Loc → Nat) (held' : Option Nat) (p' : Bool) (hist' : List (Nat × Nat))
+    (hm : s.mem .seq ≤ mem' .seq) (hsucc : Local.Succ chk (s.thr t) th') :
+    FrameSpec chk s { s with thr := upd s.thr t th', log := lg', mem := mem', held := held', poisoned := p',
+                             hist := hist' } (.run t ts) := by
+  refine ⟨?_, hm, (by intro _ _ h; cases h), (by intro _ _ h; cases h), ?_⟩
+  · intro t' ht; simp only [actor] at ht; simp [upd_ne _ _ _ ht]
+  · intro t2 ts2 h; cases h
+    simp only [upd_same]; exact ⟨hsucc, trivial⟩
+
+theorem next_store_seq {th : Local} {o : Ord} {val : Nat} (h : th.next = .store .seq o val) :
+    th.pc = .aStSeq ∧ val = th.sq + 1 := by
+  obtain ⟨pc, ub, uv, sq, bits, base⟩ := th
+  cases pc <;> simp [Local.next] at h
+  exact ⟨rfl, h.2.symm⟩
+
+theorem step_frame {chk : Nat → Nat → Bool} {s s' : State} (hI : Inv chk s) (l : Label) (h : step chk s l = some s') :
+    FrameSpec chk s s' l := by
+  cases l with
+  | sync t u =>
+    simp [step] at h; subst h
+    exact ⟨fun _ _ => ⟨rfl, rfl⟩, Nat.le_refl _, fun _ _ _ => rfl, (by intro _ _ h; cases h), (by intro _ _ h; cases h)⟩
+  | start t op =>
+    simp only [step] at h
+    split at h
+    · rename_i hterm
+      simp at h; subst h
+      refine ⟨?_, Nat.le_refl _, (by intro _ _ h; cases h), ?_, (by intro _ _ h; cases h)⟩
+      · intro t' ht; simp only [actor] at ht; simp [upd_ne _ _ _ ht]
+      · intro t2 op2 h; cases h
+        simp [hterm, hI.len]
+    · simp at h
+  | run t ts =>
+    simp only [step] at h
+    cases hnx : (s.thr t).next <;> simp only [hnx] at h
+    case load l o =>
+      simp at h; subst h
+      exact frame_run_aux chk s t ts _ _ _ _ _ _ (Nat.le_refl _) (.load l o _ hnx)
+    case store l o val =>
+      simp at h; subst h
+      refine frame_run_aux chk s t ts _ _ _ _ _ _ ?_ (.unit (by simp [hnx]) (by simp [hnx]) (by simp [hnx]) (by simp [hnx]))
+      by_cases hl : l = .seq
+      · subst hl
+        obtain ⟨hpc, hval⟩ := next_store_seq hnx
+        have hh : s.held = some t := (hI.lock t).1 (by simp [hpc, Pc.inCS])
+        have hw := hI.writer t hh
+        simp only [WInv, hpc] at hw
+        simp [hval, hw.1]
+      · have : Loc.seq ≠ l := fun h => hl h.symm
+        simp [upd_ne _ _ _ this]
+    case lock =>
+      split at h <;> simp at h
+      subst h
+      exact frame_run_aux chk s t ts _ _ _ _ _ _ (Nat.le_refl _) (.lock _ (Or.inl hnx))
+    case tryLock =>
+      split at h <;> simp at h <;> subst h
+      · exact frame_run_aux chk s t ts _ _ _ _ _ _ (Nat.le_refl _) (.lock _ (Or.inr hnx))
+      · exact frame_run_aux chk s t ts _ _ _ _ _ _ (Nat.le_refl _) (.lock _ (Or.inr hnx))
+    case unlock p =>
+      simp at h; subst h
+      exact frame_run_aux chk s t ts _ _ _ _ _ _ (Nat.le_refl _) (.unit (by simp [hnx]) (by simp [hnx]) (by simp [hnx]) (by simp [hnx]))
+    case clearPoison =>
+      simp at h; subst h
+      exact frame_run_aux chk s t ts _ _ _ _ _ _ (Nat.le_refl _) (.unit (by simp [hnx]) (by simp [hnx]) (by simp [hnx]) (by simp [hnx]))
+    case none => simp at h
+
+theorem hist_ext {chk : Nat → Nat → Bool} {s s' : State} {l : Label} (h : step chk s l = some s') :
+    ∃ y, s'.hist = s.hist ++ y := by
+  rcases hist_step chk s s' l h with h | ⟨_, _, _, _, h⟩
+  · exact ⟨[], by simp [h]⟩
+  · exact ⟨_, h⟩
+
+
+
+theorem uinv_step {chk : Nat → Nat → Bool} {s s' : State} (hI : Inv chk s) (l : Label)
+    (hU : ∀ t, UInv s.hist (s.mem .seq) (s.thr t)) (hs : step chk s l = some s') :
+    ∀ t, UInv s'.hist (s'.mem .seq) (s'.thr t) := by
+  have hF := step_frame hI l hs
+  obtain ⟨y, hy⟩ := hist_ext hs
+  have hold : ∀ t', s'.thr t' = s.thr t' → UInv s'.hist (s'.mem .seq) (s'.thr t') := by
+    intro t' h; rw [h, hy]; exact UInv_mono hF.seqmono (hU t')
+  intro t'
+  by_cases ht : t' ≠ actor l
+  · exact hold t' (hF.others t' ht).1
+  have ht : t' = actor l := Decidable.of_not_not ht
+  subst ht
+  cases l with
+  | sync t u => rw [hF.sync t u rfl]; exact hU _
+  | start t op =>
+    simp only [actor]
+    rw [(hF.start t op rfl).1]
+    cases op <;> simp [UInv, Local.start]
+  | run t ts =>
+    simp only [actor]
+    have hUt := hU t
+    have hlk := hI.lock t
+    have hwr := hI.writer t
+    simp only [step] at hs
+    cases hpc : (s.thr t).pc <;> simp only [Local.next, hpc] at hs
+    case idle | retSnap | retBool | sPanic | aPanic => simp at hs
+    case sSeq | sSeq2 | aSeq | sV | aV | sB =>
+      simp at hs; subst hs
+      simp only [upd_same, Local.feedLoad, hpc, UInv]
+      all_goals (repeat' split)
+      all_goals (try trivial)
+      all_goals simp_all
+    case aB =>
+      simp at hs; subst hs
+      have hh : s.held = some t := hlk.1 (by simp [hpc, Pc.inCS])
+      have hw := hwr hh
+      simp only [WInv, hpc] at hw
+      simp only [upd_same, Local.feedLoad, hpc]
+      by_cases h1 : (s.thr t).ub < s.mem (.b (odd (s.thr t).sq))
+      · simp only [h1, if_true, UInv]
+        exact ⟨s.mem .seq, _, Nat.le_refl _, hI.cur, by rw [hw] at h1; exact h1⟩
+      · by_cases h2 : chk (s.thr t).ub (s.thr t).uv = true <;> simp [h1, h2, UInv]
+    case aStB | aStV =>
+      simp at hs; subst hs
+      simp [upd_same, Local.feedUnit, hpc, UInv]
+    case aStSeq =>
+      simp at hs; subst hs
+      have hh : s.held = some t := hlk.1 (by simp [hpc, Pc.inCS])
+      have hw := hwr hh
+      simp only [WInv, hpc] at hw
+      simp only [upd_same, Local.feedUnit, hpc, UInv]
+      refine ⟨s.mem .seq + 1, by rw [hw.1]; exact Nat.le_refl _, ?_⟩
+      rw [← hI.len]; simp
+    case uLock =>
+      split at hs <;> simp at hs
+      subst hs
+      cases s.poisoned <;> simp [upd_same, Local.feedLock, hpc, UInv]
+    case tTry =>
+      split at hs <;> simp at hs <;> subst hs
+      · cases s.poisoned <;> simp [upd_same, Local.feedLock, hpc, UInv]
+      · simp [upd_same, Local.feedLock, hpc, UInv]
+    case uClear | tClear | uUnlock | tUnlock | aUnlockPanic =>
+      simp at hs; subst hs
+      simp [upd_same, Local.feedUnit, hpc, UInv]
+    case aUnlock r =>
+      simp at hs; subst hs
+      simp only [hpc, UInv] at hUt
+      cases r <;> simp only [upd_same, Local.feedUnit, hpc, UInv]
+      exact hUt
+
+/-- The SC invariant extended with the writers' knowledge. -/
+def Ok (chk : Nat → Nat → Bool) (s : State) : Prop :=
+  Inv chk s ∧ ∀ t, UInv s.hist (s.mem .seq) (s.thr t)
+
+theorem ok_init (chk : Nat → Nat → Bool) (v0 : Nat) (h0 : chk 0 v0 = true) : Ok chk (init v0) :=
+  ⟨inv_init chk v0 h0, fun t => by simp [UInv, init]⟩
+
+theorem ok_step {chk : Nat → Nat → Bool} {s s' : State} {l : Label} (h : Ok chk s) (hs : step chk s l = some s') :
+    Ok chk s' :=
+  ⟨inv_step chk s s' l h.1 hs, uinv_step h.1 l h.2 hs⟩
+
+theorem ok_run (chk : Nat → Nat → Bool) (ls : List Label) : ∀ (s s' : State), Ok chk s →
+    run chk s ls = some s' → Ok chk s' := by
+  induction ls with
+  | nil => intro s s' hI h; simp [run] at h; subst h; exact hI
+  | cons l ls ih =>
+    intro s s' hI h
+    simp only [run] at h
+    cases hst : step chk s l with
+    | none => simp [hst] at h
+    | some s1 => simp [hst] at h; exact ih s1 s' (ok_step hI hst) h
+
+theorem ok_reachable {chk : Nat → Nat → Bool} {v0 : Nat} (h0 : chk 0 v0 = true) {s : State}
+    (h : Reachable chk v0 s) : Ok chk s := by
+  obtain ⟨ls, hls⟩ := h
+  exact ok_run chk ls _ _ (ok_init chk v0 h0) hls
+
+theorem laws (chk : Nat → Nat → Bool) : (mach chk).Laws chk (Ok chk) True where
+  ok_step := by
+    intro s s' l h hs
+    exact ok_step (s := s) (s' := s') (l := l) h hs
+  others := by
+    intro s s' l h hs t' ht
+    exact (step_frame (s := s) (s' := s') h.1 l hs).others t' ht
+  vmono := by
+    intro s s' l h hs _
+    exact (step_frame (s := s) (s' := s') h.1 l hs).seqmono
+  hist_ext := by
+    intro s s' l _ hs
+    exact hist_ext (s := s) (s' := s') (l := l) hs
+  sync := by
+    intro s s' t u h hs
+    have : s' = s := (step_frame (s := s) (s' := s') h.1 (.sync t u) hs).sync t u rfl
+    subst this
+    exact ⟨rfl, rfl, Nat.le_refl _⟩
+  start := by
+    intro s s' t op h hs
+    obtain ⟨a, b, c, d⟩ := (step_frame (s := s) (s' := s') h.1 (.start t op) hs).start t op rfl
+    exact ⟨a, b, by show s'.mem .seq = s.mem .seq; rw [c], d⟩
+  run := by
+    intro s s' t ts h hs
+    exact (step_frame (s := s) (s' := s') h.1 (.run t ts) hs).run _ _ rfl
+  snapRet := by
+    intro s t h hpc
+    have hpc : (s.thr t).pc = .retSnap := hpc
+    obtain ⟨_, k, k1, k2, k3⟩ := (h.1.logs t).2.2 hpc
+    exact ⟨k, k1, k2, k3⟩
+  noPanic := by
+    intro s t h hpc
+    have hpc : (s.thr t).pc = .sPanic := hpc
+    have := h.1.reader t
+    simp [RInv, hpc] at this
+  uinv := fun h => h.2 _
+  sorted := fun h => h.1.sorted
+  global := fun _ _ _ _ => rfl
+
+end Woodpile.Abt.SC
